@@ -84,6 +84,11 @@ def instantiations(plan, typed, named, k, writer_for):
     return out
 
 
+def step3_of(tier, k):
+    cyc = ("typed", "ser_attr", "ser_safe") if tier == "quick" else ("typed", "ser_attr", "ser_safe", "id_attr", "id_safe")
+    return cyc[(k // 2) % len(cyc)]
+
+
 def named_wrong_classes(plan, k):
     import apps_C14 as A
 
@@ -276,13 +281,13 @@ DISTINCT = set()
 
 def alone_key(job, i):
     vc = (job.get("vclass") or [""] * job["n"])[i - 1]
-    return (job.get("family", "seqs"), job["writer"], job["inputs"], tuple(job["plan"][i - 1]), vc, i)
+    return (job.get("family", "seqs"), job.get("step3") or "", job["writer"], job["inputs"], tuple(job["plan"][i - 1]), vc, i)
 
 
 def count_case(job):
     """distinct non-trivial case: (mode, writer, input kind, plan, W, order) with at least one failing record"""
     if any(o != "ok" for p in job["plan"] for o in p):
-        DISTINCT.add((job.get("kind", "apply_to"), job.get("family"), json.dumps(job.get("vclass")), job.get("writer"), job["inputs"], json.dumps(job["plan"]), job.get("w", 0), tuple(job.get("order") or ()), tuple(job.get("delays") or ())))
+        DISTINCT.add((job.get("kind", "apply_to"), job.get("family"), job.get("step3"), json.dumps(job.get("vclass")), job.get("writer"), job["inputs"], json.dumps(job["plan"]), job.get("w", 0), tuple(job.get("order") or ()), tuple(job.get("delays") or ())))
 
 
 def judge(run, job, rec, obs, alone):
@@ -515,7 +520,7 @@ def build_parallel_jobs(run, tier, par, cover, in_dir, jid, rnd):
             job = {"id": jid, "n": n, "plan": [list(p) for p in plan], "named": [True] * n, "w": w, "order": list(order), "family": "seqs", "vclass": named_wrong_classes(plan, k), "writer": writer, "inputs": ("member", "path")[k % 2], "in_dir": str(in_dir)}
             if writer in ("write_json", "write_db") and not any("wrong" in p for p in plan) and k % 2:
                 # the same behaviour with other classes of value flowing between the steps
-                job.update(family="values", vclass=instantiations(plan, False, [True] * n, k, lambda _: writer)[0][1])
+                job.update(family="values", vclass=instantiations(plan, False, [True] * n, k, lambda _: writer)[0][1], step3=step3_of(tier, k + 2))
             pjobs[jid] = (job, rec)
         # behaviours whose failing steps meet values that do not name their source (thorough, n = 2)
         mixed.sort(key=lambda r: (r["plan"], r["named"], r["wtyped"]))
@@ -530,7 +535,7 @@ def build_parallel_jobs(run, tier, par, cover, in_dir, jid, rnd):
             family, vc, writer = inst[k % len(inst)]
             jid += 1
             nmixed += 1
-            pjobs[jid] = ({"id": jid, "n": n, "plan": [list(p) for p in r["plan"]], "named": list(r["named"]), "w": w, "order": list(order), "family": family, "vclass": vc, "writer": writer, "inputs": ("member", "path")[k % 2], "in_dir": str(in_dir)}, r)
+            pjobs[jid] = ({"id": jid, "n": n, "plan": [list(p) for p in r["plan"]], "named": list(r["named"]), "w": w, "order": list(order), "family": family, "vclass": vc, "step3": step3_of(tier, k) if family == "values" else None, "writer": writer, "inputs": ("member", "path")[k % 2], "in_dir": str(in_dir)}, r)
         cursor[("mixed", n)] += 3
     fjobs = {}
     nfree = 2 if tier == "quick" else 24
@@ -617,9 +622,11 @@ def check(run: Run):
                 # value classes: what the failing step is handed (and what a `wrong` step returns)
                 if n == 2 or tier == "thorough" or k % 4 == 0:
                     for family, vc, writer in instantiations(plan, typed, named, k, wfor):
-                        add(dict(base, family=family, vclass=vc, writer=writer, inputs=("member", "path")[k % 2]), rec)
-                        if not typed and k % 2 == 0:
-                            add(dict(base, kind="as_completed", family=family, vclass=vc, inputs=("member", "path")[(k + 1) % 2]), rec)
+                        # step typing: the last step accepts anything (no type check shields its main)
+                        s3 = step3_of(tier, k) if family == "values" else None
+                        add(dict(base, family=family, vclass=vc, step3=s3, writer=writer, inputs=("member", "path")[k % 2]), rec)
+                        if not typed and (k % 2 == 0 or s3 not in (None, "typed")):
+                            add(dict(base, kind="as_completed", family=family, vclass=vc, step3=s3, inputs=("member", "path")[(k + 1) % 2]), rec)
             # single-input reference runs for every (family, writer, input kind, profile, class, position) in use
             alone_keys = {}
             need = set()
@@ -627,13 +634,13 @@ def check(run: Run):
                 if job.get("kind") != "as_completed":
                     need.update(alone_key(job, i + 1) for i in range(job["n"]))
             for key in sorted(need):
-                family, writer, inputs, prof, vcls, i = key
+                family, s3, writer, inputs, prof, vcls, i = key
                 jid += 1
                 plan = [list(PROFILES[0])] * 4
                 plan[i - 1] = list(prof)
                 vc = ["seqs" if family == "values" else ""] * 4
                 vc[i - 1] = vcls
-                jobs.append({"id": jid, "n": 4, "plan": plan, "w": 0, "order": [], "family": family, "vclass": vc, "writer": writer, "inputs": inputs, "subset": [i], "in_dir": str(in_dir)})
+                jobs.append({"id": jid, "n": 4, "plan": plan, "w": 0, "order": [], "family": family, "step3": s3 or None, "vclass": vc, "writer": writer, "inputs": inputs, "subset": [i], "in_dir": str(in_dir)})
                 alone_keys[jid] = key
             t0 = time.time()
             obs_all = run_serial_jobs(jobs, scratch)
